@@ -178,8 +178,11 @@ fn canonical_uuid_snap(id: u16, d0: i32, d1: i32, with_ordinal: bool, o0: i32, o
 }
 
 fn uuid_write_canonical(with_ordinal: bool) {
+    uuid_write_canonical_id(with_ordinal, 7)
+}
+
+fn uuid_write_canonical_id(with_ordinal: bool, id: u16) {
     // keys are concrete (they decide the container shape and the sort), data words symbolic
-    let id: u16 = 7;
     let d0: i32 = kani::any();
     let d1: i32 = kani::any();
     let o0: i32 = kani::any();
@@ -216,9 +219,12 @@ fn c10_uuid_write_canonical_with_ordinal() {
 }
 
 fn uuid_read_lookup(with_ordinal: bool) {
+    uuid_read_lookup_id(with_ordinal, 7)
+}
+
+fn uuid_read_lookup_id(with_ordinal: bool, id: u16) {
     // reader on the canonical words (structure concrete, data symbolic): the UUID-typed item can be
     // looked up by its UUID, is enumerated with its UUID type, checksum equal, no warnings
-    let id: u16 = 7;
     let d0: i32 = kani::any();
     let d1: i32 = kani::any();
     let o0: i32 = kani::any();
@@ -264,6 +270,18 @@ fn c10_uuid_read_lookup() {
 #[kani::unwind(7)]
 fn c10_uuid_read_lookup_with_ordinal() {
     uuid_read_lookup(true);
+}
+
+#[kani::proof]
+#[kani::unwind(7)]
+fn c10_uuid_read_lookup_id_ffff() {
+    // ids across the whole 16-bit range: the largest id
+    uuid_read_lookup_id(false, 0xffff);
+}
+#[kani::proof]
+#[kani::unwind(16)]
+fn c10_uuid_write_canonical_id_8007() {
+    uuid_write_canonical_id(true, 0x8007);
 }
 
 #[kani::proof]
